@@ -63,6 +63,23 @@ class _Elastic(_IModel, ABC):
         """Updates the constitutives laws by updating the C stiffness and S compliance matrices. in Kelvin Mandel notation"""
         pass
 
+    @staticmethod
+    def _Check_C_S_are_inverse(
+        material_cM: _types.FloatArray, material_sM: _types.FloatArray
+    ) -> None:
+        """Checks that the stiffness and compliance matrices written from the material constants are the inverse of each other.\n
+        A numerical inverse is accurate to eps * cond(C) only (cond(C) ~ 1/(1-2v) for a nearly incompressible material), the tolerance follows the conditioning.
+        """
+        cM = np.asarray(material_cM, dtype=float)
+        sM = np.asarray(material_sM, dtype=float)
+        tol = max(1e-12, 1e2 * np.finfo(float).eps * np.linalg.cond(cM))
+        # checks that S = C^-1
+        diff_S = np.linalg.norm(sM - np.linalg.inv(cM)) / np.linalg.norm(sM)
+        assert diff_S < tol, f"S != C^-1 (relative error {diff_S:.3e})"
+        # checks that C = S^-1
+        diff_C = np.linalg.norm(cM - np.linalg.inv(sM)) / np.linalg.norm(cM)
+        assert diff_C < tol, f"C != S^-1 (relative error {diff_C:.3e})"
+
     # Model
     @staticmethod
     def Available_Laws():
@@ -702,16 +719,7 @@ class TransverselyIsotropic(_Elastic):
         material_cM = Heterogeneous_Array(material_cM)
 
         if len(material_cM.shape) == 2:
-            # checks that S = C^-1
-            diff_S = np.linalg.norm(
-                material_sM - np.linalg.inv(material_cM), axis=(-2, -1)
-            ) / np.linalg.norm(material_sM, axis=(-2, -1))
-            assert np.max(diff_S) < 1e-12
-            # checks that C = S^-1
-            diff_C = np.linalg.norm(
-                material_cM - np.linalg.inv(material_sM), axis=(-2, -1)
-            ) / np.linalg.norm(material_cM, axis=(-2, -1))
-            assert np.max(diff_C) < 1e-12
+            self._Check_C_S_are_inverse(material_cM, material_sM)
 
         return self._Apply_basis_transformation(
             dim=dim,
@@ -1036,16 +1044,7 @@ class Orthotropic(_Elastic):
         material_cM = Heterogeneous_Array(material_cM)
 
         if len(material_cM.shape) == 2:
-            # checks that S = C^-1
-            diff_S = np.linalg.norm(
-                material_sM - np.linalg.inv(material_cM), axis=(-2, -1)
-            ) / np.linalg.norm(material_sM, axis=(-2, -1))
-            assert np.max(diff_S) < 1e-12
-            # checks that C = S^-1
-            diff_C = np.linalg.norm(
-                material_cM - np.linalg.inv(material_sM), axis=(-2, -1)
-            ) / np.linalg.norm(material_cM, axis=(-2, -1))
-            assert np.max(diff_C) < 1e-12
+            self._Check_C_S_are_inverse(material_cM, material_sM)
 
         return self._Apply_basis_transformation(
             dim=dim,
